@@ -488,18 +488,41 @@ def arr_spec(P, val, v, s, r, x, y):
 
 
 class FieldCase:
-    def __init__(self, T, ctor, p, k, mod=None, gen=None, full=True, vec=False):
+    def __init__(self, T, ctor, p, k, mod=None, gen=None, full=True, vec=False, way="a"):
         self.T, self.ctor, self.p, self.k, self.mod, self.gen, self.full, self.vec = T, ctor, p, k, mod, gen, full, vec
+        self.way, self.other = way, (2, 2)
         self.q = p ** k
         self.lines = []      # (kind, impl_line, model_line_or_None, meta)
 
     def field_line(self):
-        s = "field %d %s %d %d" % (self.T, self.ctor, self.p, self.k)
+        s = "field %d %s:%s:%d:%d %d %d" % (self.T, self.ctor, self.way, self.other[0], self.other[1], self.p, self.k)
         if self.mod is not None:
             s += " | " + " ".join(map(str, self.mod))
         if self.gen is not None:
             s += " | " + " ".join(map(str, self.gen))
         return s
+
+
+WAYS = "adcosht"       # how the field object that is used was obtained (see harness/c05_gfq.C, harness/c05_ext.C)
+OTHERS = [(2, 3), (13, 2), (3, 2), (251, 1), (2, 1), (5, 3), (31, 1), (2, 7)]
+
+
+def bitlen(p):
+    """ceil(log2 p) as GFqExtFast::_pceil computes it"""
+    n, pp = 1, 2
+    while pp < p:
+        pp <<= 1
+        n += 1
+    return n
+
+
+def other_field(i, p, k, limit=None):
+    """a field GF(p2^k2) to assign over: other characteristic, other degree or size, other bit length of the characteristic;
+    deterministic in the index i (alternates smaller / larger characteristic)"""
+    cands = [o for o in OTHERS if o[0] != p and bitlen(o[0]) != bitlen(p) and (o[1] != k or k == 1) and (limit is None or limit(o))]
+    if not cands:
+        cands = [o for o in OTHERS if o[0] != p and (limit is None or limit(o))]
+    return cands[i % len(cands)]
 
 
 def elements_sample(rng, q, n):
@@ -688,6 +711,12 @@ def main(tier, replay=None):
         fields.append(FieldCase(64 if T == 32 else 32, "mod", p, k, mod=m2))
     big = [FieldCase(64, "auto", 2, 20, full=False), FieldCase(64, "auto", 4194301, 1, full=False)]
     fields += big          # GF(2^20), GF(4194301): implementation vs oracle only (no model tables)
+    # every way of obtaining the field object (constructed in place, copy-constructed, assigned over a default-constructed
+    # object / over a field of other characteristic, degree and size / to itself / twice, copy kept while the source is
+    # overwritten): rotated deterministically over the fields, so each way is used by ~1/7 of the fields of every run
+    for i, fc in enumerate(fields):
+        fc.way = WAYS[i % len(WAYS)]
+        fc.other = other_field(i // len(WAYS), fc.p, fc.k)
     per = 12 if tier == "quick" else 60
     for fc in fields:
         gen_ops(rng, fc, per if fc.q <= 4096 else 3 * per, styles, tier)
@@ -782,17 +811,20 @@ def main(tier, replay=None):
             continue
         t = fc.desc
         p, k, q, N = fc.p, fc.k, fc.q, fc.q - 1
-        fname = "GF(%d^%d)/int%d_t/%s" % (p, k, fc.T, fc.ctor)
+        fname = "GF(%d^%d)/int%d_t/%s/%s" % (p, k, fc.T, fc.ctor, fc.way)
         x = t.index("X")
         P = PF(p, k, fc.irred)
         G = P.elt(fc.g)
         # 6a. descriptors: cardinality / characteristic / exponent / constants
         exp_desc = {"q": q, "one": N, "mone": (N if p == 2 else N // 2), "card": q, "char": p, "expo": k, "zero": 0,
-                    "size": q, "residu": q, "genrep": 1, "cardI": q, "char64": p, "min": 0, "max": N}
+                    "size": q, "residu": q, "genrep": 1, "cardI": q, "char64": p, "min": 0, "max": N, "X": True}
         got_desc = {"q": int(t[1]), "one": int(t[2]), "mone": int(t[3]), "card": int(t[x + 3]), "char": int(t[x + 4]),
                     "expo": int(t[x + 5]), "zero": int(t[x + 6]), "size": int(t[x + 7]), "residu": int(t[x + 8]),
-                    "genrep": int(t[x + 9]), "cardI": int(t[x + 10]), "char64": int(t[x + 11]), "min": int(t[x + 12]), "max": int(t[x + 13])}
+                    "genrep": int(t[x + 9]), "cardI": int(t[x + 10]), "char64": int(t[x + 11]), "min": int(t[x + 12]), "max": int(t[x + 13]),
+                    # indeterminate() / indeterminate(Rep&) / sage_generator(): the representation of the polynomial X (k > 1)
+                    "X": (int(t[x + 14]) == -9) if k == 1 else (fc.q > 65536 or (0 <= int(t[x + 14]) <= N and P.pow(G, int(t[x + 14])) == P.elt(p)))}
         chk.count(("desc", fname))
+        bump("way:" + fc.way)
         if exp_desc != got_desc:
             chk.fail_input("GFqDom::cardinality/characteristic/exponent", "descriptor", {"field": fc.field_line()}, exp_desc, got_desc)
         # 6b. the defining polynomial and the generator, independently of every table
@@ -916,10 +948,12 @@ def main(tier, replay=None):
                                    "the call with destination/operands aliased as in the pattern differs from polynomial arithmetic modulo f")
             elif kind == "pred":
                 a, b = meta
-                exp = "%d%d%d%d%d%d" % (a == 0, a == N, a == (N if p == 2 else N // 2), a != 0, a == b, a != b)
+                va = val(a)
+                exp = "%d%d%d%d%d%d%d" % (a == 0, a == N, a == (N if p == 2 else N // 2), a != 0, a == b, a != b,
+                                          a != 0 and va is not None and not any(va[1:]))      # isUnit: non-zero element of the prime subfield
                 chk.count((fname, il), nontrivial=False)
                 if got != exp:
-                    chk.fail_input("GFqDom::isZero/isOne/isMOne/areEqual", "predicate", case, exp, got)
+                    chk.fail_input("GFqDom::isZero/isOne/isMOne/isUnit/areEqual", "predicate", case, exp, got)
             elif kind == "same":
                 chk.count((fname, il), nontrivial=False)
                 if got != str(meta):
@@ -1050,6 +1084,39 @@ def vec_part(chk, rng, himpl, dist):
                                "the polynomial with p-adic value x is not mapped to its residue modulo the defining polynomial")
 
 
+def ff_subexponent_max(p, e):
+    """FF_SUBEXPONENT_MAX(p,e) of extension.h with _GIVARO_FF_TABLE_MAX / _GIVARO_FF_MAXEXPONENT_ read from givtablelimits.h"""
+    tmax, emax = 2097153, 21
+    try:
+        txt = open(os.path.join(vf.REPO, "src/kernel/field/givtablelimits.h")).read()
+        m = re.search(r"#define\s+_GIVARO_FF_TABLE_MAX\s+(\d+)", txt)
+        tmax = int(m.group(1)) if m else tmax
+        m = re.search(r"#define\s+_GIVARO_FF_MAXEXPONENT_\s+(\d+)", txt)
+        emax = int(m.group(1)) if m else emax
+    except OSError:
+        pass
+    f, i = 0, p
+    while i < tmax and f < min(e, emax):
+        f += 1
+        i *= p
+    while f > 1 and e % f:
+        f -= 1
+    return f
+
+
+def maxn_numerator():
+    """the numerator of `_maxn( <num>/(P-1)/(P-1)/e)` in both constructors of GFqExtFast, read from /repo's gfqext.h"""
+    try:
+        txt = open(os.path.join(vf.REPO, "src/kernel/field/gfqext.h")).read()
+    except OSError:
+        return None
+    txt = re.sub(r"//[^\n]*", "", txt)
+    ms = re.findall(r"_maxn\s*\(\s*(\w+)\s*/\s*\(\s*P\s*-\s*1\s*\)\s*/\s*\(\s*P\s*-\s*1\s*\)\s*/\s*e\s*\)", txt)
+    if len(ms) >= 2 and len(set(ms)) == 1 and ms[0] in ("_BASE", "_MASK"):
+        return ms[0]
+    return None
+
+
 def build_harness_retry(src, **kw):
     """vf.build_harness; retried when the shared library cache entry was pruned by a concurrent run between
     build_repo_lib() and the link step (many checks share build/cache)."""
@@ -1060,6 +1127,10 @@ def build_harness_retry(src, **kw):
     return h, l
 
 
+GF2_CODE = {v: i for i, v in enumerate(["add", "sub", "mul", "div", "neg", "inv", "axpy", "axmy", "maxpy", "addin", "subin", "mulin", "divin",
+                                        "negin", "invin", "axpyin", "axmyin", "maxpyin", "assign"])}
+GF2_ARITY = {"add": 2, "sub": 2, "mul": 2, "div": 2, "addin": 2, "subin": 2, "mulin": 2, "divin": 2, "neg": 1, "inv": 1, "negin": 1, "invin": 1,
+             "assign": 1, "axpy": 3, "axmy": 3, "maxpy": 3, "axpyin": 3, "axmyin": 3, "maxpyin": 3}
 XCODE = {"add": 0, "addin": 0, "sub": 1, "subin": 1, "mul": 2, "mulin": 2, "neg": 3, "negin": 3, "axpy": 4, "axpyin": 5,
          "maxpy": 6, "maxpyin": 7, "axmy": 8, "axmyin": 9}
 
@@ -1073,25 +1144,43 @@ def ext_part(chk, rng, tier, dist, drv=None):
         return
     L = []          # (impl line, kind, meta)
     # --- GF2: every variant, both overloads (Element&, BitReference), all operands
-    L.append(("gf2desc", "gf2desc", None))
+    # complete sweep, every run: 5 ways of obtaining the GF2 object x 2 destination kinds x 2 previous contents of the
+    # destination x all operand values, for the 18 arithmetic variants and assign; the bit position cycles through
+    # word boundaries of the std::vector<bool>
+    GF2POS = [0, 1, 63, 64, 65, 129]
+    npos = 0
+    for way in range(5):
+        L.append(("gf2desc %d" % way, "gf2desc", None))
+        for form in "eb":
+            for v, n in sorted(GF2_ARITY.items()):
+                for prev in (0, 1):
+                    if v.endswith("in") and prev:
+                        continue          # in-place forms: the destination holds the first operand
+                    for bits in range(1 << n):
+                        vals = [(bits >> i) & 1 for i in range(n)] + [0, 0, 0]
+                        npos += 1
+                        L.append(("gf2 %d %s %s %d %d %d %d %d" % (way, v, form, prev, GF2POS[npos % len(GF2POS)], vals[0], vals[1], vals[2]),
+                                  "gf2", (v, vals[0], vals[1], vals[2])))
     for form in "eb":
-        for v in ("add", "sub", "mul", "div", "addin", "subin", "mulin", "divin"):
+        for prev in (0, 1):
+            for x in (0, 1, 2, 3, 2**64 + 1, 2**64, 10**30 + 7, -1, -2, -(10**30 + 7)):
+                L.append(("gf2 0 init_Integer %s %d 64 %d" % (form, prev, x), "gf2", ("init", x, 0, 0)))
+            L.append(("gf2 0 init_none %s %d 63 0" % (form, prev), "gf2", ("init", 0, 0, 0)))
             for a in (0, 1):
-                for b in (0, 1):
-                    L.append(("gf2 %s %s %d %d" % (v, form, a, b), "gf2", (v, a, b, 0)))
-        for v in ("neg", "inv", "negin", "invin"):
-            for a in (0, 1):
-                L.append(("gf2 %s %s %d" % (v, form, a), "gf2", (v, a, 0, 0)))
-        for v in ("axpy", "axmy", "maxpy", "axpyin", "axmyin", "maxpyin"):
-            for a in (0, 1):
-                for b in (0, 1):
-                    for c in (0, 1):
-                        L.append(("gf2 %s %s %d %d %d" % (v, form, a, b, c), "gf2", (v, a, b, c)))
-        for x in (0, 1, 2, 3, 2**64 + 1, 2**64, 10**30 + 7):
-            L.append(("gf2 init %s %d" % (form, x), "gf2", ("init", x, 0, 0)))
+                L.append(("gf2 0 convert_bit b %d 65 %d" % (prev, a), "gf2", ("assign", a, 0, 0)))
+    for ty, lo, hi in (("i32", -2**31, 2**31 - 1), ("u32", 0, 2**32 - 1), ("i64", -2**63, 2**63 - 1), ("u64", 0, 2**64 - 1),
+                       ("dbl", -2**53, 2**53), ("flt", -2**24, 2**24)):
+        for x in [0, 1, 2, 3, 255, 256, 257, 65537, 2**24 - 1, 2**31 - 1, 2**31, 2**31 + 1, 2**32 + 1, 2**40 + 1, 2**53 - 1, 2**63 - 1, 2**64 - 1,
+                  -1, -2, -3, -255, -257, -2**31, -2**31 - 1, -2**40 - 1, lo, lo + 1, hi, hi - 1, rng.range(lo, hi), rng.range(lo, hi) | 1]:
+            if lo <= x <= hi:
+                L.append(("gf2 0 init_%s e %d 0 %d" % (ty, x & 1 ^ 1, x), "gf2", ("init_" + ty, x, 0, 0)))
     for a in (0, 1):
+        L.append(("gf2 0 convert e 0 0 %d" % a, "gf2", ("assign", a, 0, 0)))
         for b in (0, 1):
-            L.append(("gf2 pred e %d %d" % (a, b), "gf2", ("pred", a, b, 0)))
+            for way in range(5):
+                L.append(("gf2 %d pred e 0 0 %d %d" % (way, a, b), "gf2", ("pred", a, b, 0)))
+    L.append(("gf2rand e 64", "gf2rand", None))
+    L.append(("gf2rand b 64", "gf2rand", None))
     for form in "eb":
         for v, n in sorted(ALIAS_NARGS.items()):
             nv = n if v.endswith("in") else n - 1
@@ -1112,16 +1201,25 @@ def ext_part(chk, rng, tier, dist, drv=None):
     if tier == "thorough":
         exts += [(b, c, p, k) for b in ("gfq", "mod") for c in ("bf", "pol") for (p, k) in [(2, 2), (2, 3), (3, 5), (5, 4), (7, 3), (17, 2), (251, 2), (4099, 5)]]
     per = 10 if tier == "quick" else 80
-    for ex in exts:
-        (base, ctor, p, k), sb = ex[:4], (ex[4] if len(ex) > 4 else 1)
+    # every way of obtaining the Extension object: rotated over the list + all ways on two small fields (both base types)
+    XW = "acosht"
+    exts = [ex + (XW[i % len(XW)],) if len(ex) == 4 else ex + (XW[i % len(XW)],) for i, ex in enumerate(exts)]
+    exts += [("gfq", "bf", 3, 2, w) for w in XW] + [("mod", "bf", 5, 2, w) for w in XW] + [("gfq", "pe", 2, 6, w) for w in "cot"]
+    for xi, ex in enumerate(exts):
+        (base, ctor, p, k), way = ex[:4], ex[-1]
+        sb = ex[4] if len(ex) > 5 else 1
         q = (p ** sb) ** k
+        o2 = other_field(xi, p, k, limit=lambda o: o[0] ** o[1] < 2**20)
         line = "ext %s %s %d %d" % (base, ctor, p, k) + (" %d" % sb if ctor == "tower" else "")
+        wtok = " w=%s,%d,%d" % (way, o2[0], max(2, o2[1]))
+        dist["ext:way:" + way] = dist.get("ext:way:" + way, 0) + 1
         mod = None
         if ctor == "pol":
             mod = find_irreducible(rng, p, k, monic=(p == 2 or rng.chance(1, 2))) if q <= 10**6 else None
             if mod is None:
                 continue
             line += " | " + " ".join(map(str, mod))
+        line += wtok
         L.append((line, "ext", (base, ctor, p, k, mod)))
         if ctor == "pe" and k in (8, 12, 22):
             q = p ** k
@@ -1148,52 +1246,72 @@ def ext_part(chk, rng, tier, dist, drv=None):
         L.append(("eop initI 0", "eop", "initI"))
         L.append(("eop convzero %d" % rng.range(1, q - 1), "eop", "convzero"))
     # --- GFqExtFast / GFqExt
-    gx = [("fast", 3, 2), ("ext", 3, 4), ("fast", 5, 3), ("fast", 2, 4), ("ext", 7, 2), ("fast", 2, 8), ("fast", 3, 4), ("ext", 5, 2), ("fast", 11, 2), ("fast", 2, 2)]
-    for (cls, p, k) in gx:
+    gx = [("fast", 3, 2), ("ext", 3, 4), ("fast", 5, 3), ("fast", 2, 4), ("ext", 7, 2), ("fast", 2, 8), ("fast", 3, 4), ("ext", 5, 2), ("fast", 11, 2), ("fast", 2, 2),
+          ("fast", 5, 2), ("ext", 2, 3), ("fast", 13, 2), ("fast", 7, 3), ("ext", 2, 2), ("fast", 17, 2), ("ext", 3, 3), ("fast", 3, 5)]
+    GW = "dcaosht"
+    # every way of obtaining the object (constructed in place / copy / assigned over a default-constructed object, over a field
+    # whose characteristic has ANOTHER BIT LENGTH and whose degree differs, to itself, twice / copy kept while the source is
+    # overwritten / constructed from a user modulus): rotated over the list, and ALL ways on GF(5^2), GF(3^3) (fast) and GF(3^2) (ext)
+    gxw = [(cls, p, k, GW[i % len(GW)]) for i, (cls, p, k) in enumerate(gx)]
+    gxw += [("fast", 5, 2, w) for w in GW + "m"] + [("fast", 3, 3, w) for w in GW + "m"] + [("ext", 3, 2, w) for w in GW] + [("fast", 2, 5, w) for w in "otm"]
+    for gi, (cls, p, k, way) in enumerate(gxw):
         q = p ** k
         bits = 53 // (2 * k - 1)
         B = 1 << bits
-        maxn = B // (p - 1) // (p - 1) // k
-        pceil = 1
-        pp = 2
-        while pp < p:
-            pp <<= 1
-            pceil += 1
+        pceil = bitlen(p)
         modout = (1 << (pceil * k)) - 1
-        L.append(("gext %s %d %d" % (cls, p, k), "gext", (cls, p, k, bits, maxn, modout)))
+        # the other field: characteristic of another bit length (both directions over the run), another degree
+        o2 = other_field(gi, p, k, limit=lambda o: o[1] >= 2 and o[0] ** o[1] <= 4096 and (1 << (53 // (2 * o[1] - 1))) // (o[0] - 1) ** 2 // o[1] > 0)
+        line = "gext %s %d %d %s %d %d" % (cls, p, k, way, o2[0], o2[1])
+        gmod = None
+        if way == "m":
+            gmod = find_irreducible(rng, p, k, monic=rng.chance(1, 2))
+            line += " | " + " ".join(map(str, gmod))
+        dist["gext:way:" + way] = dist.get("gext:way:" + way, 0) + 1
+        L.append((line, "gext", (cls, p, k, bits, way, modout, gmod)))
+        small = gi >= len(gx)          # the all-ways fields get fewer random cases each
+        gper = per if not small else max(4, per // 2)
         def ez():
             return rng.choice([0, 1, q - 1, (q - 1) // 2]) if rng.chance(1, 4) else rng.range(0, q - 1)
         for v in ("add", "sub", "mul", "div", "neg", "inv", "axpy", "maxpy", "axmy"):
-            for _ in range(per):
+            for _ in range(gper):
                 a, b, c = ez(), ez(), ez()
                 if v in ("div",) and b == 0:
                     b = 1
                 if v == "inv" and a == 0:
                     a = q - 1
                 L.append(("gop %s %d %d %d" % (v, a, b, c), "gop", (v, a, b, c)))
-        for line, v, pat, vals in alias_lines(rng, "gopa", q, 2):
+        for line, v, pat, vals in alias_lines(rng, "gopa", q, 1 if small else 2):
             L.append((line, "gopa", (v, pat, vals)))
-        for a in [0, 1, q - 1] + [rng.range(0, q - 1) for _ in range(per)]:
+        # convert(double&): every element for small fields (the q-adic image is a bijection onto the packed polynomials)
+        for a in (range(q) if q <= 32 else [0, 1, q - 1] + [rng.range(0, q - 1) for _ in range(gper)]):
             L.append(("gconv %d" % a, "gconv", a))
-        if cls == "fast":
-            # decode of a Kronecker-packed accumulator: sum_i v_i B^i, i < 2k-1, v_i below the documented bound
-            bound = min(B - 1, max(1, maxn) * k * (p - 1) ** 2)
-            for _ in range(2 * per):
-                vs = [rng.choice([0, 1, p - 1, p, bound, rng.range(0, bound)]) for _ in range(2 * k - 1)]
-                L.append(("ginit %d" % sum(x << (bits * i) for i, x in enumerate(vs)), "ginit", vs))
-            for n in [1, 2, min(maxn, 3), min(maxn, 8), maxn if maxn <= 64 else 64] * (2 if tier == "quick" else 10):
-                n = max(1, min(n, maxn))      # more than _maxn products overflow a digit of the packed accumulator (documented bound)
-                xs = [ez() if not rng.chance(1, 5) else q - 1 for _ in range(n)]
-                ys = [ez() if not rng.chance(1, 5) else q - 1 for _ in range(n)]
-                L.append(("gdot %d | %s | %s" % (n, " ".join(map(str, xs)), " ".join(map(str, ys))), "gdot", (xs, ys)))
-        else:
-            for d in [0, 1, p - 1, p, modout - 1] + [rng.range(0, modout - 1) for _ in range(per)]:
-                vs = []
-                m = d
-                for _ in range(2 * k - 1):
-                    vs.append(m & (B - 1))
-                    m >>= bits
-                L.append(("ginit %d" % d, "ginit", vs))
+        # decode of a Kronecker-packed accumulator: sum_i v_i B^i, i < 2k-1, v_i < B (both classes: GFqExt::init reduces the
+        # double defensively first, which must not change a valid accumulator)
+        L.append(("ginit 0", "ginit", [0] * (2 * k - 1)))
+        L.append(("ginit %d" % sum((B - 1) << (bits * i) for i in range(2 * k - 1)), "ginit", [B - 1] * (2 * k - 1)))      # the largest valid double
+        for _ in range(2 * gper):
+            vs = [rng.choice([0, 1, p - 1, p, B - 1, B - 2, rng.range(0, B - 1), rng.range(0, B - 1)]) for _ in range(2 * k - 1)]
+            L.append(("ginit %d" % sum(x << (bits * i) for i, x in enumerate(vs)), "ginit", vs))
+        for a in [0, 1, q - 1, rng.range(0, q - 1), rng.range(0, q - 1)]:
+            L.append(("groundtrip %d" % a, "groundtrip", a))
+        # init(float) / convert(float&) on values a float holds exactly; init(Rep&, unsigned long); random
+        for x in [0, 1, p - 1, p, B, B + 1, 2 * B + p + 1] + [rng.range(0, 2**24) for _ in range(4)]:
+            if x < 2**24:
+                L.append(("gflt %d" % x, "gflt", x))
+        for x in [0, 1, p, q - 1, q, q + 1, rng.range(0, 10 * q)]:
+            L.append(("ginitul %d" % x, "ginitul", x))
+        L.append(("grand 40", "grand", None))
+        # dot products: random operands of every length class, and the documented limit maxdot() with the operands that
+        # make every digit of the accumulator maximal (all coefficients p-1; the harness takes n from maxdot())
+        for mode in (0, 1, 2):          # n = maxdot(), maxdot()-1, maxdot()/2 products of the all-(p-1) element with itself
+            L.append(("gdotw %d" % mode, "gdotw", mode))
+        maxn_safe = (B - 1) // ((p - 1) ** 2 * k)
+        for n in [1, 2, min(maxn_safe, 3), min(maxn_safe, 8), maxn_safe if maxn_safe <= 64 else 64] * (2 if tier == "quick" else 10):
+            n = max(1, min(n, maxn_safe))
+            xs = [ez() if not rng.chance(1, 5) else q - 1 for _ in range(n)]
+            ys = [ez() if not rng.chance(1, 5) else q - 1 for _ in range(n)]
+            L.append(("gdot %d | %s | %s" % (n, " ".join(map(str, xs)), " ".join(map(str, ys))), "gdot", (xs, ys)))
     rc, out, err = vf.run_lines(h, "\n".join(x[0] for x in L) + "\n", timeout=(300 if tier == "quick" else 900))
     out = [o for o in out if not o.startswith("WARNING")]
     if rc != 0 or len(out) != len(L):
@@ -1207,28 +1325,52 @@ def ext_part(chk, rng, tier, dist, drv=None):
     ctx = None
     l2p = None
     xq = []          # (field, impl line, impl answer, model line) of the Extension operations that ExtModel.v models
+    gq = []          # (impl line, impl answer, model line) of the GF2 operations (GF2Model.v)
+    gmax = {}        # field -> (p, k, bits, maxdot()) as the implementation reports them
+    qq = []          # (field, impl line, impl p-adic answer, model line) of the q-adic decodes (QadicModel.v)
     for (line, kind, meta), got in zip(L, out):
         dist["ext:" + kind] = dist.get("ext:" + kind, 0) + 1
         if kind == "gf2desc":
-            chk.count(("gf2desc",), nontrivial=False)
-            if got != "2 2 2 2 0 1 1 2 2 0 1":
-                chk.fail_input("GF2::cardinality/characteristic/constants", "descriptor", {"line": line}, "2 2 2 2 0 1 1 2 2 0 1", got)
+            chk.count(("gf2desc", line), nontrivial=False)
+            if got != "2 2 2 2 0 1 1 2 2 0 1 2 2 2":
+                chk.fail_input("GF2::cardinality/characteristic/constants", "descriptor", {"line": line}, "2 2 2 2 0 1 1 2 2 0 1 2 2 2", got)
+        elif kind == "gf2rand":
+            t = got.split()
+            chk.count(("gf2rand", line), nontrivial=False)
+            if len(t) != 3 or t[2] != "0" or int(t[0]) + int(t[1]) != 64 or t[0] == "0" or t[1] == "0":
+                chk.fail_input("GF2::random/nonzerorandom", "bitref" if " b " in line else "element", {"line": line}, "both values drawn, nonzerorandom = 1", got)
         elif kind == "gf2":
             v, a, b, c = meta
             chk.count(("gf2", line), nontrivial=bool(a))
+            bref = (" b " in line)
             if v in ("add", "sub", "addin", "subin"): e = a ^ b
             elif v in ("mul", "mulin"): e = a & b
             elif v in ("div", "divin"): e = a if b else None
-            elif v in ("neg", "negin"): e = a
+            elif v in ("neg", "negin", "assign"): e = a
             elif v in ("inv", "invin"): e = a if a else None
             elif v in ("axpy", "axmy", "maxpy"): e = (a & b) ^ c
             elif v in ("axpyin", "axmyin", "maxpyin"): e = a ^ (b & c)
             elif v == "init": e = a % 2
+            elif v.startswith("init_"):
+                xv = a
+                if v == "init_flt":
+                    import struct
+                    xv = int(struct.unpack("f", struct.pack("f", float(a)))[0])
+                e = xv % 2
             elif v == "pred": e = "%d%d%d%d%d" % (a == 0, a == 1, a == 1, a == 1, a == b)
             if e is None:
                 continue
-            if got != str(e):
-                chk.fail_input("GF2::" + v, "bitref" if " b " in line else "element", {"line": line}, e, got)
+            want = str(e) if v == "pred" else "%s %s" % (e, e)
+            if got != want:
+                if v in ("init_dbl", "init_flt"):
+                    chk.fail_input("GF2::init(double|float)", "outside [0,256)" if not (0 <= xv < 256) else "inside [0,256)", {"line": line}, want, got,
+                                   "init from a floating-point value casts to unsigned char before taking the parity")
+                else:
+                    chk.fail_input("GF2::" + (v if not v.startswith("init") else "init"), "bitref" if bref else "element", {"line": line}, want, got,
+                                   "destination after the call and value of the returned reference")
+            if v in GF2_ARITY and drv:
+                # correspondence: the extracted GF2 model (GF2Model.v, theorem C05_gf2_operations_are_F2_arithmetic)
+                gq.append((line, got.split()[0], "gf2 %d %d %d %d %d" % (GF2_CODE[v], 1 if bref else 0, a, b, c)))
         elif kind == "gf2a":
             v, pat, vals = meta
             chk.count(("gf2a", line), nontrivial=bool(vals[0]))
@@ -1244,7 +1386,7 @@ def ext_part(chk, rng, tier, dist, drv=None):
                 chk.fail_input("GF2::" + v, ("bitref" if " b " in line else "element") + " alias " + pat, {"line": line}, e, got)
         elif kind == "ext":
             base, ctor, p, k, mod = meta
-            ctx = "Extension<%s>/%s GF(%d^%d)" % ("GFqDom<int64_t>" if base == "gfq" else "Modular<int64_t>", ctor, p, k)
+            ctx = "Extension<%s>/%s/%s GF(%d^%d)" % ("GFqDom<int64_t>" if base == "gfq" else "Modular<int64_t>", ctor, line.split("w=")[-1][0], p, k)
             t = got.split()
             P = None
             chk.count(("ext", line))
@@ -1280,7 +1422,11 @@ def ext_part(chk, rng, tier, dist, drv=None):
             if mod is not None and irred != sum((c % p) * p ** i for i, c in enumerate(mod)):
                 chk.fail_input("Extension::Extension(Pol_t,Irred)", "stored-modulus", {"line": line}, mod, irred)
             if t[10:13] != ["0", "1", str(p - 1 if p > 2 else 1)]:
-                chk.fail_input("Extension::zero/one/mOne", "constants", {"line": line}, ["0", "1", str(p - 1)], t[10:13])
+                # Extension(p,e) falls back to the prime base field when p^e fits a table (FF_SUBEXPONENT_MAX(p,e) >= e, limit
+                # read from givtablelimits.h) AFTER zero/one/mOne were copied from the polynomial domain over GF(p^e)
+                fb = (ctor == "pe" and ff_subexponent_max(p, k) >= k and " w=c" not in line and " w=h" not in line)
+                chk.fail_input("Extension::zero/one/mOne", "constants after the direct-field fallback of Extension(p,e)" if fb else "constants",
+                               {"line": line}, ["0", "1", str(p - 1)], t[10:13])
         elif kind == "eop":
             if P is None:
                 continue
@@ -1327,12 +1473,12 @@ def ext_part(chk, rng, tier, dist, drv=None):
             elif ee is not None and v in XCODE and isinstance(P, PF):
                 xq.append((ctx, line, got, "xop %d %d %d %d %d %d %d" % (P.p, P.k, P.fnum(), XCODE[v], ea, eb, ec)))
         elif kind == "gext":
-            cls, p, k, bits, maxn, modout = meta
-            ctx = "GFqExt%s<int32_t> GF(%d^%d)" % ("Fast" if cls == "fast" else "", p, k)
+            cls, p, k, bits, way, modout, gmod = meta
+            ctx = "GFqExt%s<int32_t>/%s GF(%d^%d)" % ("Fast" if cls == "fast" else "", way, p, k)
             t = got.split()
             P = None
             chk.count(("gext", line))
-            if len(t) < 9 or t[0] != "G":
+            if len(t) < 16 or t[0] != "G" or t[9] != "Q":
                 chk.fail_input("GFqExtFast::GFqExtFast", "constructor", {"line": line}, "a field", got)
                 continue
             q = p ** k
@@ -1344,11 +1490,28 @@ def ext_part(chk, rng, tier, dist, drv=None):
                 chk.fail_input("GFqExtFast::GFqExtFast", "modulus-or-generator", {"line": line}, "irreducible modulus, primitive generator", t[2:4])
                 P = None
                 continue
+            if gmod is not None and int(t[2]) != sum((c % p) * p ** i for i, c in enumerate(gmod)):
+                chk.fail_input("GFqExtFast::GFqExtFast(P,e,modPoly)", "stored-modulus", {"line": line}, gmod, t[2])
             l2p, p2l, pl1 = P.tables(G)
             if hash3(l2p) != t[8]:
                 chk.fail_input("GFqExtFast tables", "table-entry", {"line": line}, hash3(l2p), t[8])
                 P = None
-            gmeta = meta
+                continue
+            # q-adic transform parameters: bits = digits of a double / (2k-1) (53 is std::numeric_limits<double>::digits), base, mask,
+            # characteristic(UTT&), indeterminate().  maxdot() must not exceed the bound below which no digit of an accumulated
+            # product overflows (theorem C05_qadic_accumulator_digits_do_not_overflow): n * k * (p-1)^2 <= 2^bits - 1
+            B = 1 << bits
+            qa = [int(x) for x in t[10:16]]
+            if qa[:3] != [bits, B, B - 1] or qa[4] != p or (k > 1 and qa[5] != p):
+                chk.fail_input("GFqExtFast::bits/base/mask/characteristic/indeterminate", "descriptor", {"line": line}, [bits, B, B - 1, "maxdot", p, p], qa)
+            gmaxn = qa[3]
+            safe = (B - 1) // (k * (p - 1) ** 2)
+            if gmaxn > safe:
+                chk.fail_input("GFqExtFast::maxdot", "n*k*(p-1)^2 = 2^bits" if gmaxn * k * (p - 1) ** 2 == B else "n*k*(p-1)^2 > 2^bits",
+                               {"line": line, "bits": bits, "p": p, "k": k}, "at most %d" % safe, gmaxn,
+                               "maxdot() products of worst-case operands overflow a digit of the packed accumulator")
+            gmeta = (cls, p, k, bits, gmaxn, modout)
+            gmax[ctx] = (p, k, bits, gmaxn)
         elif P is None:
             continue
         elif kind == "gop":
@@ -1372,13 +1535,51 @@ def ext_part(chk, rng, tier, dist, drv=None):
             e = sum(c << (bits * i) for i, c in enumerate(P.elt(l2p[meta])))
             if got != str(e):
                 chk.fail_input("GFqExtFast::convert(double&)", "packed", {"field": ctx, "line": line}, e, got)
-        elif kind in ("ginit", "gdot"):
+        elif kind in ("ginit", "gdot", "gdotw", "groundtrip", "gflt", "ginitul", "grand"):
             chk.count((ctx, line))
+            cls, p, k, bits, gmaxn, modout = gmeta
+            B = 1 << bits
+            site = "GFqExtFast::init(double)" if cls == "fast" else "GFqExt::init(double)"
+            t = got.split()
+            if kind == "grand":
+                # random(g, r) goes through init(double): every draw must be an element of the field
+                if len(t) != 3 or t[2] != "0" or not (0 <= int(t[0]) <= int(t[1]) < P.q):
+                    chk.fail_input("GFqExtFast::random", "outside-field", {"field": ctx, "line": line}, "elements", got)
+                continue
+            if kind == "ginitul":
+                want = meta % P.q
+                if len(t) != 2 or t[1] != str(want):
+                    chk.fail_input("GFqExtFast::init(Rep&, unsigned long)", "p-adic", {"field": ctx, "line": line}, want, got)
+                continue
+            klass = kind
             if kind == "ginit":
                 vs = meta
+            elif kind == "gflt":
+                vs = [(meta >> (bits * i)) & (B - 1) for i in range(2 * k - 1)]
+            elif kind == "groundtrip":
+                vs = list(P.elt(l2p[meta])) + [0] * (k - 1)
+            elif kind == "gdotw":
+                n = int(t[0]) if t and t[0].isdigit() else -1
+                want_n = [gmaxn, max(gmaxn - 1, 0), gmaxn // 2][meta]
+                if n != want_n:
+                    chk.fail_input("GFqExtFast::maxdot", "harness", {"field": ctx, "line": line}, want_n, got)
+                    continue
+                t = t[1:]
+                top = [p - 1] * k
+                vs = [0] * (2 * k - 1)
+                for i in range(k):
+                    for j in range(k):
+                        vs[i + j] += n * top[i] * top[j]
+                if max(vs) >= B:
+                    # beyond the bound the decode is not specified; the defect is maxdot() itself (reported at the descriptor)
+                    if not (meta == 0 and gmaxn > (B - 1) // (k * (p - 1) ** 2)):
+                        chk.fail_input("GFqExtFast::maxdot", "harness", {"field": ctx, "line": line}, "digits below 2^bits", vs)
+                        continue
+                    klass = "maxdot() worst-case products"
+                    site = "GFqExtFast::maxdot"
+                    # expected value of the true sum (what a caller relying on maxdot() is entitled to)
             else:
                 xs, ys = meta
-                k = P.k
                 vs = [0] * (2 * k - 1)
                 for xa, ya in zip(xs, ys):
                     A, Bc = P.elt(l2p[xa]), P.elt(l2p[ya])
@@ -1390,11 +1591,40 @@ def ext_part(chk, rng, tier, dist, drv=None):
             X = P.elt(P.p) if P.k > 1 else P.zero
             for c in reversed(vs):
                 e = P.add(P.mul(e, X), P.elt(c % P.p))
-            t = got.split()
-            if len(t) != 2 or t[1] != str(P.num(e)):
-                chk.fail_input("GFqExtFast::init(double)" if gmeta[0] == "fast" else "GFqExt::init(double)",
-                               "d=0" if (kind == "ginit" and not any(vs)) else kind, {"field": ctx, "line": line, "coefficients": vs},
+            if kind == "ginit" and not any(vs):
+                klass = "d=0"
+            elif cls == "ext" and site != "GFqExtFast::maxdot" and sum(v << (bits * i) for i, v in enumerate(vs)) >= modout:
+                klass = "d >= 2^(pceil*k)-1"          # GFqExt reduces d modulo _MODOUT (the table size) first
+            if len(t) < 2 or t[1] != str(P.num(e)) or (kind == "gflt" and (len(t) != 3 or int(t[2]) != sum(c << (bits * i) for i, c in enumerate(P.elt(P.num(e)))) and sum(c << (bits * i) for i, c in enumerate(P.elt(P.num(e)))) < 2**24)):
+                chk.fail_input(site if kind != "gflt" else site.replace("double", "float"), klass, {"field": ctx, "line": line, "coefficients": vs},
                                P.num(e), got, "decoding of the Kronecker-packed double is not sum (v_i mod p) X^i mod f")
+            elif drv and kind in ("ginit", "gdot", "groundtrip") and cls == "fast":
+                # correspondence: the extracted REDQ model (QadicModel.v) decodes the same accumulator
+                qq.append((ctx, line, t[1], "qinit %d %d %d %d %d" % (p, k, P.fnum(), bits, sum(v << (bits * i) for i, v in enumerate(vs)))))
+    # correspondence: the extracted GF2 model (GF2Model.v) on every GF2 call of the sweep, the extracted q-adic decode
+    # (QadicModel.v) on the accumulators GFqExtFast::init(double) was given, and the constructor's formula for maxdot()
+    # as READ from gfqext.h (numerator _BASE or _MASK) evaluated by the extracted q_maxn against the compiled maxdot()
+    if drv and (gq or qq):
+        num = maxn_numerator()
+        chk.assumptions.append("GFqExtFast::_maxn numerator read from gfqext.h: %s (theorem C05_qadic_accumulator_digits_do_not_overflow needs _MASK = 2^bits-1; "
+                               "with _BASE the refuted bound C05_qadic_maxdot_of_source_refuted applies)" % (num or "not recognised"))
+        mq = []
+        if num:
+            for ctxg, (pp, kk, bb, mx) in sorted(gmax.items()):
+                mq.append(("maxdot of " + ctxg, str(mx), "qmaxn %d %d %d" % ((1 << bb) - (1 if num == "_MASK" else 0), pp, kk)))
+        allq = [(l, g_, m) for (l, g_, m) in gq] + [(c + " " + l, g_, m) for (c, l, g_, m) in qq] + mq
+        rc, mo, merr = vf.run_lines(drv, "\n".join(x[2] for x in allq) + "\n", timeout=900)
+        if rc != 0 or len(mo) != len(allq):
+            chk.broke("model driver failed on the GF2 / q-adic lines (rc=%s, %d/%d lines)" % (rc, len(mo), len(allq)), merr[-1000:])
+        else:
+            dist["gf2:model-correspondence"] = len(gq)
+            dist["qadic:model-correspondence"] = len(qq)
+            dist["qadic:maxdot-formula-correspondence"] = len(mq)
+            nb = 0
+            for (what, got, ml), mg in zip(allq, mo):
+                if mg.strip() != got.strip() and nb < 10:
+                    nb += 1
+                    chk.broke("correspondence GF2/q-adic model vs implementation differs on '%s': model=%s impl=%s (model line '%s')" % (what, mg, got, ml))
     # correspondence: the extracted Extension model (ExtModel.v, theorem C05_extension_ops_are_quotient_ring_operations)
     if drv and xq:
         step = max(1, len(xq) // (12000 if tier == "quick" else 60000))
